@@ -25,9 +25,8 @@
 package model
 
 import (
-	"encoding/json"
 	"fmt"
-	"os"
+	"runtime/debug"
 	"sort"
 	"strings"
 
@@ -99,6 +98,15 @@ type Backend interface {
 type CleanupPanic struct{ Text string }
 
 func (e *CleanupPanic) Error() string { return "panic in re-commit index cleanup: " + e.Text }
+
+// ClassifyCommitPanic is for a Backend's deferred recover in Commit: a panic raised below DelLeafCountKV
+// becomes a *CleanupPanic, any other panic is raised again (and reported as it is).
+func ClassifyCommitPanic(r interface{}) error {
+	if !strings.Contains(string(debug.Stack()), "DelLeafCountKV") {
+		panic(r)
+	}
+	return &CleanupPanic{Text: fmt.Sprint(r)}
+}
 
 type entry struct {
 	h       int64
@@ -534,15 +542,8 @@ func Run(tb lib.TB, test string, c Case, be Backend) bool {
 				before = be.Keys()
 			}
 			root, err := be.Commit(parent(), s.tip+1, o.KV)
-			if cp, ok := err.(*CleanupPanic); ok {
+			if _, ok := err.(*CleanupPanic); ok {
 				lib.Class("recommit_cleanup_panicked")
-				if os.Getenv("C05_DEBUG") != "" {
-					cc := c
-					cc.Ops = c.Ops[:i+1]
-					bb, _ := json.Marshal(cc)
-					fmt.Fprintf(os.Stderr, "CLEANUP-PANIC %s\n%s\n", cp.Text, bb)
-				}
-				lib.Note("recommit_cleanup_panicked: "+strings.SplitN(cp.Text, "\n", 2)[0], 1)
 				return false
 			}
 			if err != nil || len(root) == 0 {
